@@ -28,7 +28,7 @@ func init() {
 			"plus kind confusion between endpoints; oracle: accept => logout reference model holds on the returned structure; single fault => typed error naming it; flag false with checking off, otherwise true iff the root's own signature is honoured and then every returned field equals the issue-log unit; distinct = shape hash of those knobs and the outcome",
 		Directed:   c10Directed,
 		Run:        func(r *core.Run) { r.Tape.Int(1, "c04.flow"); logoutAdversarial(r, "C10") },
-		MustHit:    []string{"kind=LogoutRequest", "kind=LogoutResponse", "misroute", "signing=untrusted", "signing=tampered", "signing=wrapped-new-id", "signing=wrapped-same-id", "signing=relocated-signature", "signing=foreign-signature", "skip_config", "issuer_unconfigured", "compressed", "nonconforming_idp"},
+		MustHit:    []string{"kind=LogoutRequest", "kind=LogoutResponse", "misroute", "signing=untrusted", "signing=tampered", "signing=wrapped-new-id", "signing=wrapped-same-id", "signing=relocated-signature", "signing=foreign-signature", "skip_config", "issuer_unconfigured", "compressed", "nonconforming_idp", "slo_url_unconfigured"},
 		RandomRuns: map[string]int{"quick": 8000, "thorough": 80000},
 	})
 }
@@ -68,6 +68,7 @@ func logoutAdversarial(r *core.Run, prop string) {
 	}
 	fault := c10Faults[fi]
 	issuerCfg := t.Int(2, "c10.issuercfg") == 0
+	sloUnset := t.Int(6, "c10.slounset") == 1 // the SP has no single-logout URL configured: only an absent Destination is acceptable
 
 	s := NewStd(r)
 	s.DrawLive()
@@ -79,6 +80,10 @@ func logoutAdversarial(r *core.Run, prop string) {
 	if !issuerCfg {
 		s.Cfg.IdPIssuer = ""
 		r.Probe("issuer_unconfigured")
+	}
+	if sloUnset {
+		s.Cfg.SLO = ""
+		r.Probe("slo_url_unconfigured")
 	}
 	if !s.Build() {
 		return
@@ -137,6 +142,13 @@ func logoutAdversarial(r *core.Run, prop string) {
 	case "status-nested-partiallogout-under-failure":
 		m.StatusCode = []string{"urn:oasis:names:tc:SAML:2.0:status:Responder", "urn:oasis:names:tc:SAML:2.0:status:Requester"}[t.Int(2, "c10.status")]
 		m.SubStatusCode = strp([]string{"urn:oasis:names:tc:SAML:2.0:status:PartialLogout", world.StatusOK}[t.Int(2, "c10.substatus")])
+	}
+	if sloUnset && !misroute && m.Destination != nil && *m.Destination != "" {
+		if fault == "none" {
+			fault = "destination-wrong" // addressed to an endpoint this SP does not have
+		} else if fault != "destination-wrong" {
+			m.Destination = nil // one fault at a time
+		}
 	}
 	if fault != "none" {
 		r.Fault("nonconforming_idp")
